@@ -12,7 +12,8 @@ Record gobs := mkG {
   g_next : list N;           (* GetNextBlockValidators *)
   g_newepoch : list N;       (* ComputeNextBlockValidators *)
   g_blocked : list N;        (* accounts of the universe for which Policy.isBlocked answers true, ascending *)
-  g_policy : list Z          (* FeePerByte, BaseExecFee (pico), StoragePrice (pico) *)
+  g_policy : list Z;         (* FeePerByte, BaseExecFee (pico), StoragePrice (pico) *)
+  g_whitelist : list (N * Z) (* cached whitelisted fees (Policy.getWhitelistFeeContracts): (deployer account, fee), ascending *)
 }.
 
 Record gblock := mkGB { gb_txs : list tx; gb_obs : gobs }.
@@ -26,12 +27,15 @@ Definition model_obs (cfg : config) (st : state) : gobs :=
   mkG (committee_sorted st) (next_validators cfg st) (compute_next_validators cfg st) (c_blocked (A st))
       [aget 0 10%N (p_cache (A st));
        (if hf_faun cfg then aget 0 18%N (p_cache (A st)) else aget 0 18%N (p_cache (A st)) * 10000);
-       aget 0 19%N (p_cache (A st)) * 10000].
+       aget 0 19%N (p_cache (A st)) * 10000]
+      (flat_map (fun a => match whitelisted_fee st a with Some f => [(a, f)] | None => [] end)
+                (map N.of_nat (seq 0 32))).
 
 Definition gobs_eqb (a b : gobs) : bool :=
   nlist_eqb (g_committee a) (g_committee b) && nlist_eqb (g_next a) (g_next b)
   && nlist_eqb (g_newepoch a) (g_newepoch b) && nlist_eqb (g_blocked a) (g_blocked b)
-  && zlist_eqb (g_policy a) (g_policy b).
+  && zlist_eqb (g_policy a) (g_policy b)
+  && list_eqb (fun x y => N.eqb (fst x) (fst y) && (snd x =? snd y)) (g_whitelist a) (g_whitelist b).
 
 Fixpoint mem_Z (x : Z) (l : list Z) : bool := match l with [] => false | y :: t => (x =? y) || mem_Z x t end.
 
@@ -61,7 +65,7 @@ Definition check_case (c : case) : N :=
   | CGov cfg restarts blocks =>
       if hyps_ok cfg blocks then
         let plain := run_gov cfg [] (Some (genesis cfg)) blocks in
-        let restarted := if fix_block_dirty cfg && fix_gpv_drop cfg
+        let restarted := if fix_block_dirty cfg && fix_gpv_drop cfg && fix_whitelist cfg
                          then run_gov cfg restarts (Some (genesis cfg)) blocks else true in
         (* the model with both repairs is proved restart-transparent; a disagreement with the running node leaves the
            specification (replica equality, evaluated directly on the real replicas) untouched: code 1 *)
